@@ -6,6 +6,7 @@
 (*     r      where each returned piece lies in the text (byte ranges of its *)
 (*            non-white content, located by the harness)                     *)
 (*     pc     characters of each piece without surrounding white space       *)
+(*     lm     the library's own metric of each piece in the configured unit  *)
 (*     valid  utf8.ValidString of each piece                                 *)
 (*     found  every piece could be located, in order, without overlap        *)
 (*     term   the call returned before the deadline                          *)
@@ -30,7 +31,10 @@ EvClause(e) ==
     IF ~e.term THEN "termination"
     ELSE IF \E i \in 1..Len(e.valid) : ~e.valid[i] THEN "utf8"
     ELSE IF ~e.found THEN "conservation"
-    ELSE SplitClause(e.t, e.r, e.pc, e.unit, e.limit, e.cpt)
+    ELSE LET cl == SplitClause(e.t, e.r, e.pc, e.unit, e.limit, e.cpt) IN
+         IF cl # "" THEN cl
+         ELSE IF "lm" \in DOMAIN e /\ ~LibBound(e.t, e.lm, e.unit, e.limit) THEN "size-bound"
+         ELSE ""
 
 Report(cl) == PrintT(ToJson([line |-> l, clause |-> cl]))
 
@@ -51,7 +55,17 @@ TraceReuse ==
     /\ l' = l + 1
     /\ UNCHANGED vars
 
-TraceNext == TraceSplit \/ TraceReuse
+\* Metrics {m, unit, limit, min}: what every size accessor of one calculator says
+\* about one text
+TraceMetrics ==
+    /\ l <= Len(Trace) /\ Ev.event = "Metrics"
+    /\ LET cl == MetricClause(Ev.m, Ev.unit, Ev.limit, Ev.min) IN
+         \/ cl = ""
+         \/ (cl # "" /\ ~Strict /\ Report(cl))
+    /\ l' = l + 1
+    /\ UNCHANGED vars
+
+TraceNext == TraceSplit \/ TraceReuse \/ TraceMetrics
 TraceSpec == TraceInit /\ [][TraceNext]_tvars
 
 TraceAccepted == TLCGet("stats").diameter - 1 = Len(Trace)
